@@ -728,7 +728,28 @@ impl Gen {
             5 => Oob::KidOver(k),
             6 => Oob::KidsOver(k),
             7 => Oob::OverN(p(self)?, p(self)?),
-            8 => Oob::Over16(p(self)?, p(self)?),
+            8 => {
+                // build a full group of 16 as a chain (one label per vertex, fits every N), then one more
+                let mut absent: Vec<usize> = (0..m.cap).filter(|v| !m.is_present(*v)).collect();
+                if absent.len() < 17 || m.groups_alive() >= MAX_GROUPS {
+                    return None;
+                }
+                self.rng.shuffle(&mut absent);
+                absent.truncate(17);
+                for v in &absent[1..] {
+                    self.queue.push_back(Step::Add { i, v: Id::L(*v) });
+                }
+                let l = self.label();
+                for k in 0..15 {
+                    self.queue.push_back(Step::Bind { i, a: Id::L(absent[k]), b: Id::L(absent[k + 1]), l: l.clone() });
+                }
+                if self.rng.chance(1, 2) {
+                    let d = self.data_bytes();
+                    self.queue.push_back(Step::Put { i, v: Id::L(absent[3]), d });
+                }
+                self.queue.push_back(Step::Oob { i, call: Oob::Over16(Id::L(absent[15]), Id::L(absent[16])) });
+                return Some(Step::Add { i, v: Id::L(absent[0]) });
+            }
             9 => Oob::PutAbsent(self.pick_absent(m)?),
             10 => Oob::DataAbsent(self.pick_absent(m)?),
             11 => Oob::BindAbsent(self.pick_absent(m)?, p(self)?),
